@@ -8,7 +8,8 @@
    `outs evs` everything delivered on callers' channels, `step_outs (final pre) e` what event `e`
    delivers after history `pre`. *)
 From Coq Require Import List NArith Bool Permutation Sorted.
-From V Require Import gen.Consts model.GetRecord proofs.GetRecord proofs.GetRecordQuorum proofs.GetRecordSplit.
+From V Require Import gen.Consts model.GetRecord proofs.GetRecord proofs.GetRecordQuorum proofs.GetRecordSplit
+  proofs.GetRecordHolders.
 Import ListNotations.
 Open Scope N_scope.
 
@@ -40,6 +41,20 @@ Proof. exact terminating_removes. Qed.
 Theorem dedup_order_irrelevant : forall evs x y,
   In x (pending (final evs)) -> In y (pending (final evs)) -> qkey x = qkey y -> x = y.
 Proof. exact one_query_per_key. Qed.
+
+(* GetRecordCfg::expected_holders is logging data: histories that differ only in the expected holders
+   of their commands deliver the same outcomes to the same callers and end in the same state (up to
+   the stored holder sets), and every single handler call returns the same code -- in particular all
+   expected holders having answered never completes a read *)
+Theorem outcomes_independent_of_expected_holders : forall evs1 evs2,
+  map strip_event evs1 = map strip_event evs2 ->
+  outs evs1 = outs evs2 /\ strip_state (final evs1) = strip_state (final evs2).
+Proof. exact holders_irrelevant. Qed.
+
+Theorem step_independent_of_expected_holders : forall s e,
+  step (strip_state s) (strip_event e) =
+  (strip_state (fst (fst (step s e))), snd (fst (step s e)), snd (step s e)).
+Proof. exact step_strip. Qed.
 
 (* Ok(record) is always the record of the reply being processed (never a stored or invented one) *)
 Theorem ok_is_a_reply : forall pre e c r,
